@@ -317,6 +317,15 @@ func (ex *executor) run() {
 	switch p.Config.Store {
 	case "", "localfs":
 		root := spellRoot(w.Root, p.Config.RootForm)
+		if p.Config.RootForm == "missing-parent" {
+			// a typo in the configuration, a volume that is not mounted: neither
+			// the served directory nor its parent exists (and nothing is set up)
+			root = realfp.Join(w.Sandbox, "no-such-parent", "served")
+			w.Root, ex.seam.Root = root, root
+			ex.leaks = append(ex.leaks, root)
+			w.outside = OutsideListing(w.Sandbox, root)
+			p.Setup = nil
+		}
 		if strings.HasPrefix(p.Config.RootForm, "rel-") {
 			// configured relative to the working directory of the server process
 			// (`webdav-server .`): the process changes into the sandbox for the run
